@@ -22,9 +22,20 @@ def gen_template(rng, toks, length, profile="mixed", kind_hint=None):
     bad_ical = [toks.tok(b) for b in rng.sample(INVALID_ICAL, 3)]
     bad_card = [toks.tok(b) for b in rng.sample(INVALID_VCARD, 2)]
     ops = []
+    meta_vals = ["Work", "Work", "Privé ✓", "50% off", "a%%b", "%(color)s", "#ff0000", "x = y", "[sec]", "# no comment",
+                 "; neither", "two\nlines", "quote \" q", "7", "a: b"]
     for _ in range(length):
         r = rng.random()
         name = rng.choice(names)
+        if profile == "meta" and r < 0.45:
+            key = rng.choice(["displayname", "description", "color", "comment", "order"])
+            val = rng.choice(meta_vals) if rng.random() < 0.9 else None
+            if key == "color" and val is not None:
+                val = rng.choice(["#ff0000", "#00ff00aa", "#123456"])
+            if key == "order" and val is not None:
+                val = rng.choice(["1", "7", "42"])
+            ops.append(("setmeta", key, val))
+            continue
         if r < 0.55:
             if name.lower().endswith(".ics"):
                 ct = rng.choice(["text/calendar", "text/calendar", "text/calendar; charset=utf-8", None])
